@@ -42,7 +42,7 @@ def elastic_cases(draw, dim):
     if draw(st.integers(0, 3)) == 0:
         r = draw(gm.merged_recipes(dim))  # deliberately mixed: two blocks of different element types merged
     else:
-        r = draw(gm.recipes2d(hmin=4, hmax=9) if dim == 2 else gm.recipes3d())
+        r = draw(gm.recipes2d(hmin=4, hmax=9) if dim == 2 else gm.recipes3d(taper_ok=True))
     law = draw(gmod.elastic_specs(dim))
     G = draw(grad_strategy(dim))
     c = [draw(st.integers(-3, 3)) for _ in range(dim)]
@@ -133,7 +133,7 @@ def thermal_cases(draw):
     elif kind == "2d":
         r = draw(gm.recipes2d())
     else:
-        r = draw(gm.recipes3d())
+        r = draw(gm.recipes3d(taper_ok=True))
     g = [draw(st.integers(-4, 4)) for _ in range(3)]
     c = draw(st.integers(-3, 3))
     k = draw(st.integers(1, 20)) / 4.0
@@ -261,3 +261,29 @@ def check_beam(case, rec):
 
 SUBS.append(Sub("beam", check_beam, gen=beam_cases, quick=80, thorough=800, shards=4))
 READY = True
+
+
+# ------------------------------------------------------------------------------------------
+# (added) frusta: wedges and bricks whose cross-section grows or shrinks along the extrusion (straight edges, planar faces, but the
+# elements are not translates of their base: the Jacobian varies inside a first-order wedge). One case per type and taper.
+
+
+def enum_tapered(tier):
+    sq = [[1.0, 0.0], [0.1, 1.1], [-1.0, 0.2], [-0.1, -0.9]]
+    k = 0
+    for et in ("PRISM6", "PRISM15", "PRISM18", "HEXA8", "HEXA20", "HEXA27"):
+        for taper in (-0.4, 0.6):
+            k += 1
+            r = dict(verts=sq, h=1.2 if et in ("PRISM6", "HEXA8") else 1.5, elemType=et, organised=et.startswith("HEXA"), extrude=[0.25, -0.25, 1.0],
+                     layers=2 if et in ("PRISM6", "HEXA8") else 1, A=None, b=None, perm=None, orphans=0, taper=taper)
+            law = dict(cls="iso", dim=3, planeStress=False, thickness=1.0, E=3.0, v=0.3, angles=[0.1, 0.1, 0.1])
+            yield dict(kind="elastic", recipe=r, law=law, G=[[1, -2, 3], [2, 1, -1], [-3, 2, 2]], c=[1, -2, 3], form="lambda" if k % 2 else "array")
+            yield dict(kind="thermal", recipe=r, g=[2, -3, 1], c=1, k=1.5, thickness=1.0, form="lambda" if k % 2 else "array")
+
+
+def check_tapered(case, rec):
+    rec.label("tapered:" + case["recipe"]["elemType"])
+    (check_elastic if case["kind"] == "elastic" else check_thermal)(case, rec)
+
+
+SUBS.append(Sub("tapered", check_tapered, enum=enum_tapered, doc="patch tests on frusta meshed with wedges / bricks"))
